@@ -110,6 +110,12 @@ def parse_vspec(path):
             elif key in ("loop", "loop_start", "loop_end"):
                 cur_block = Block(key, int(rest), ln)
                 cur_item.blocks.append(cur_block)
+            elif key == "loop_start_code":
+                # executable text inserted right after the loop's '{' as part of rewrite <Rk>
+                rid, n = rest.split()
+                cur_block = Block("loop_start", int(n), ln)
+                cur_block.rewrite_id = rid
+                cur_item.blocks.append(cur_block)
             elif key in ("before", "after"):
                 cur_block = Block(key, _unquote(rest), ln)
                 cur_item.blocks.append(cur_block)
@@ -208,6 +214,9 @@ def emit_item(spec, repo, out, stats, vspec_path, cache):
             if not (1 <= b.arg <= len(loops)):
                 raise Lost("%s: loop #%d not found (function has %d loops)" % (fn, b.arg, len(loops)))
             k, bo, bc = loops[b.arg - 1]
+            if getattr(b, "rewrite_id", None):
+                stats["rewrites"].setdefault(b.rewrite_id, 0)
+                stats["rewrites"][b.rewrite_id] += 1
             if b.kind == "loop":
                 ins(bo, b, "inline_before")
             elif b.kind == "loop_start":
